@@ -126,6 +126,16 @@ pub mod implementations {
         let left = left.move_out_of_heap_primitive()?;
         let right = right.move_out_of_heap_primitive()?;
 
+        // a present optional behaves like the value it holds
+        let left = match left {
+            Optional(Some(ref inner)) => inner.as_ref().clone(),
+            other => other,
+        };
+        let right = match right {
+            Optional(Some(ref inner)) => inner.as_ref().clone(),
+            other => other,
+        };
+
         let result = match (symbols.as_str(), &left, &right) {
             ("+", ..) => left + right,
             ("-", ..) => left - right,
@@ -171,14 +181,23 @@ pub mod implementations {
 
             let result = {
                 let no_hp = value.move_out_of_heap_primitive_borrow()?;
-                let no_mut: &Primitive = &no_hp;
+                let no_mut: &Primitive = match no_hp.as_ref() {
+                    Primitive::Optional(Some(inner)) => inner,
+                    other => other,
+                };
+
+                let stored = bundle.primitive();
+                let current: &Primitive = match &*stored {
+                    Primitive::Optional(Some(inner)) => inner,
+                    other => other,
+                };
 
                 match op.as_str() {
-                    "+=" => (&*bundle.primitive() + no_mut)?,
-                    "-=" => (&*bundle.primitive() - no_mut)?,
-                    "*=" => (&*bundle.primitive() * no_mut)?,
-                    "/=" => (&*bundle.primitive() / no_mut)?,
-                    "%=" => (&*bundle.primitive() % no_mut)?,
+                    "+=" => (current + no_mut)?,
+                    "-=" => (current - no_mut)?,
+                    "*=" => (current * no_mut)?,
+                    "/=" => (current / no_mut)?,
+                    "%=" => (current % no_mut)?,
                     _ => bail!("unknown assignment operation: {op}"),
                 }
             };
@@ -199,14 +218,24 @@ pub mod implementations {
                 bail!("`bin_op_assign` tried to modify a pointer, but {maybe_ptr} is not a HeapPrimitive");
             };
 
+            let value = match value {
+                Primitive::Optional(Some(ref inner)) => inner.as_ref().clone(),
+                other => other,
+            };
+
             let result = ptr
                 .update(|current| {
+                    let current: &Primitive = match current.deref() {
+                        Primitive::Optional(Some(inner)) => inner,
+                        other => other,
+                    };
+
                     Ok(match op.as_str() {
-                        "+=" => (current.deref() + &value)?,
-                        "-=" => (current.deref() - &value)?,
-                        "*=" => (current.deref() * &value)?,
-                        "/=" => (current.deref() / &value)?,
-                        "%=" => (current.deref() % &value)?,
+                        "+=" => (current + &value)?,
+                        "-=" => (current - &value)?,
+                        "*=" => (current * &value)?,
+                        "/=" => (current / &value)?,
+                        "%=" => (current % &value)?,
                         _ => bail!("unknown assignment operation: {op}"),
                     })
                 })?
